@@ -4,8 +4,11 @@
    re-signed with other keys, wrong chain, conflicting, stale / equal timestamps, htlc_maximum
    above capacity, unknown channel, node without channels) delivered in every order with every
    duplication, interleaved with permanent failures, pruning and reloads, against the
-   observable spec spec/Gossip.tla: OnlyAuthentic, NeverOlder, NodeCleanup, Confluence (the
-   graph is a function of the set of valid messages delivered) and CodeWithinSpec.
+   observable spec spec/Gossip.tla: OnlyAuthentic, NeverOlder, NodeCleanup, FailedStayOut (what
+   was reported permanently failed stays out while the report is certainly remembered: no
+   announcement naming the failed channel, or the failed node in either slot, is applied, through
+   whatever entry point, until a pruning call a week later / a reload / a snapshot), Confluence
+   (the graph is a function of the set of valid messages delivered) and CodeWithinSpec.
 2. Every reachable model state is printed as a driver script (a delivery order incl. duplicates,
    prunes, failures); the Rust engine `gossip` replays them -- plus seeded random scripts over
    larger universes incl. rapid-gossip-sync snapshots -- into the real NetworkGraph through both
@@ -17,6 +20,8 @@ import json, os, random, re, time
 import vlib
 
 PID = "C17"
+# universes whose scripts are all replayed (small; the memory of removals against later gossip)
+KEEP_ALL = ("GossipMC9.cfg", "GossipMC10.cfg")
 MC_ACTIONS = {"FailCs": "MFailC", "FailNs": "MFailN", "PruneTs": "MPrune", "RgsSnaps": "MRgs", "ResolveCs": "MResolve"}
 
 
@@ -185,6 +190,38 @@ def selftest(wd, good_lines):
                     break
         if done:
             break
+    # (j) gossip brings back a node reported permanently failed while the report is remembered
+    lookup_of, remembered = {}, {}
+    for k, r in enumerate(recs):
+        run = r["run"]
+        if r["ev"] == "reset":
+            lookup_of[run] = r["lookup"]
+            remembered[run] = set()
+            continue
+        rem = remembered.setdefault(run, set())
+        if r["ev"] == "failn" and k > 0 and recs[k - 1]["run"] == run and \
+                any(n["n"] == r["n"] for n in recs[k - 1].get("g", {"nodes": []})["nodes"]):
+            rem.add(r["n"])
+        elif r["ev"] in ("prune", "reload", "rgs"):
+            rem.clear()
+        elif (r["ev"] == "deliver" and r["m"]["k"] == "ca" and not lookup_of.get(run, True) and r["res"] == "err"
+              and r["m"]["chain"] and r["m"]["bs"] == 1 and r["m"]["s1"] in (r["m"]["n1"], -2)
+              and r["m"]["s2"] in (r["m"]["n2"], -2) and (r["m"]["s1"] == -2) == (r["m"]["s2"] == -2)
+              and (r["m"]["n1"] in rem or r["m"]["n2"] in rem)
+              and not any(c["c"] == r["m"]["c"] for c in r["g"]["chans"])):
+            m = clone()
+            mm = r["m"]
+            nod = {"has": False, "ts": 0, "en": False, "cltv": 0, "hmin": 0, "hmax": 0, "fb": 0, "fp": 0}
+            m[k]["g"]["chans"].append({"c": mm["c"], "n1": mm["n1"], "n2": mm["n2"], "cap": -1, "d0": dict(nod), "d1": dict(nod)})
+            for n in (mm["n1"], mm["n2"]):
+                ent = [x for x in m[k]["g"]["nodes"] if x["n"] == n]
+                if ent:
+                    ent[0]["chans"].append(mm["c"])
+                else:
+                    m[k]["g"]["nodes"].append({"n": n, "ha": False, "ats": 0, "ap": 0, "ad": 0, "chans": [mm["c"]]})
+            m[k]["res"] = "ok"
+            muts.append(("failed-node-brought-back", m))
+            break
     rejected = 0
     for name, m in muts:
         p = os.path.join(wd, "selftest-%s.ndjson" % name)
@@ -210,10 +247,10 @@ def run(tier, seed):
 
     # ---- 1. model checking + behaviour generation
     cfgs = ["GossipMC.cfg", "GossipMC2.cfg", "GossipMC3.cfg", "GossipMC4.cfg", "GossipMC5.cfg", "GossipMC7.cfg",
-            "GossipMC8.cfg"]
+            "GossipMC8.cfg", "GossipMC9.cfg", "GossipMC10.cfg"]
     if thorough:
         cfgs = ["GossipMC.cfg", "GossipMC2.cfg", "GossipMC3.cfg", "GossipMC4t.cfg", "GossipMC5t.cfg", "GossipMC6.cfg",
-                "GossipMC7t.cfg", "GossipMC8.cfg"]
+                "GossipMC7t.cfg", "GossipMC8.cfg", "GossipMC9.cfg", "GossipMC10.cfg"]
     mcs = []
     per_cfg = []
     for cfg in cfgs:
@@ -231,16 +268,16 @@ def run(tier, seed):
                   len(got), r["wall_s"]))
         if not got:
             raise vlib.ToolError("no scripts from %s" % cfg)
-        per_cfg.append(got)
+        per_cfg.append((cfg, got))
         r.pop("out")
         mcs.append((cfg, r))
     cap = 40000 if thorough else 6000
-    share = cap // len(per_cfg)
+    share = cap // len([c for c, _ in per_cfg if c not in KEEP_ALL])
     scripts = []
-    for got in per_cfg:
+    for cfg, got in per_cfg:
         # deep states carry the long orders: keep all of the deepest, sample the rest
         got.sort(key=lambda s: -len(s["ops"]))
-        if len(got) > share:
+        if len(got) > share and cfg not in KEEP_ALL:
             keep = got[:share // 2] + rng.sample(got[share // 2:], share - share // 2)
         else:
             keep = got
@@ -350,8 +387,11 @@ def run(tier, seed):
         "harness builds `lightning` with feature _test_utils: the wall-clock rejection of channel_updates older "
         "than two weeks / more than a day ahead in update_channel is compiled out; timestamps used are within "
         "that window anyway (run start + 100..400 s)",
-        "asynchronous UTXO lookups: one pending lookup per scid at a time; no removals / snapshots / reloads while "
-        "a lookup is pending",
+        "asynchronous UTXO lookups: one pending lookup per scid at a time; permanent failures and clock-only pruning "
+        "calls while a lookup is pending are driven, snapshots / reloads / pruning that removes channels are not",
+        "memory of removals: refusal is demanded only while a failure report is certainly remembered (no reload, no "
+        "snapshot naming the item, no pruning call with a clock a week past the start of the run); afterwards, and for "
+        "channels removed by pruning, either outcome is accepted; a snapshot re-adds whatever it names",
         "messages carry no excess data and no dont_forward flag; features are empty",
         "where the property text is silent (re-announcement of a removed channel, conflicting announcement of a "
         "known scid, half-updated channel at pruning time, pruning pass at the end of a snapshot) the trace spec "
